@@ -85,8 +85,8 @@ def corr_operators(ck, tier, suite="K.operators"):
             fams.append(("onionW*D=1", W @ D, np.eye(n), 1e-11 * n))
             fams.append(("twoPointD", model_matrix("twoPointD", n), quiet(dasch._bs_two_point, n), 1e-13))
             fams.append(("daun0", model_matrix("daun0", n), quiet(daun._bs_daun, n, 0), 1e-13))
-            fams.append(("daun1", model_matrix("daun1", n), quiet(daun._bs_daun, n, 1), 1e-13))
-            fams.append(("daun2", model_matrix("daun2", n), quiet(daun._bs_daun, n, 2), 1e-13))
+            fams.append(("daun1", model_matrix("daun1", n), quiet(daun._bs_daun, n, 1), max(1e-13, 8 * n ** 3 * 2.0 ** -53)))   # one ulp of the cancelling r³ terms
+            fams.append(("daun2", model_matrix("daun2", n), quiet(daun._bs_daun, n, 2), max(1e-13, 8 * n ** 4 * 2.0 ** -53)))   # … of the r⁴ terms
             if n >= 3:
                 fams.append(("threePointD", model_matrix("threePointD", n), quiet(dasch._bs_three_point, n), 1e-13))
             d = rng.normal(size=n)
